@@ -137,6 +137,9 @@ package wamp
 //@   requires s != nil
 //@   pure
 
+//@ func ISO8601
+//@   pure
+
 //@ func NowISO8601
 //@   pure
 
